@@ -1,2 +1,2 @@
 """Importing this package registers every rule with sa.report.RULES."""
-from . import c01, c02, c03, c04, c05, c06, c07, c08, c09, c11, c12, c13, c14, c16, c17, c18, c21, c22, c23, c24, c25  # noqa: F401
+from . import c01, c02, c03, c04, c05, c06, c07, c08, c09, c11, c12, c13, c14, c16, c17, c18, c21, c22, c23, c24, c25, c26  # noqa: F401
